@@ -142,9 +142,11 @@ func (r *Rig) Install(checkpoints []Checkpoint) {
 			return nil, fmt.Errorf("verif: connection refused (%s)", addr)
 		}
 		if n.AcceptsExhausted() {
+			n.noteRefusedDial()
 			return nil, fmt.Errorf("verif: connection refused (%s): node stopped accepting", addr)
 		}
 		if !n.Reserve() {
+			n.noteRefusedDial()
 			return nil, fmt.Errorf("verif: connection refused (%s): node accepts at most %d connection(s)", addr, n.MaxLive)
 		}
 		c, err := net.DialTimeout("tcp4", n.Addr(), timeout)
